@@ -274,6 +274,11 @@ PARAM_CASES = [
     ("seed-invalid", "SELECT", "randomize=true seed=abc", r"seed value must be a number or a reference"),
     ("range-not-numeric", "range", "start=abc end=5", r"Range parameters 'start', 'end' or 'step' must all be numbers"),
     ("max-pixels-not-integer", "image", "max-pixels=abc", r"Parameter max-pixels must have an integer value"),
+    ("max-pixels-not-integer", "image", "max-pixels=inf", r"Parameter max-pixels must have an integer value"),
+    ("max-pixels-not-integer", "image", "max-pixels=-Infinity app=com.example.cam", r"Parameter max-pixels must have an integer value"),
+    ("max-pixels-not-integer", "image", "max-pixels=1e999", r"Parameter max-pixels must have an integer value"),
+    ("max-pixels-not-integer", "image", "max-pixels=nan", r"Parameter max-pixels must have an integer value"),
+    ("rows-not-integer", "text", "rows=inf", r"Parameter rows must have an integer value"),
     ("audio-quality-invalid", "audio", "quality=loud", r"Invalid value for quality"),
     ("mock-accuracy-invalid", "geopoint", "allow-mock-accuracy=maybe", r"Invalid value for allow-mock-accuracy"),
     ("capture-accuracy-not-numeric", "geopoint", "capture-accuracy=abc", r"Parameter capture-accuracy must have a numeric value"),
